@@ -160,6 +160,7 @@ klass(SV_, fields=dict(sid=TStr, service_meta=TPyDict(dict(state=TInt)), config=
               "websocket": Opaque("ws"), "config": Opaque("config")})
 inline(SV_ + ".get_current_service_state", SV_ + "._store_service_meta")
 ST_ = "self.service_meta['state']"
+SRV_GHOSTS = ["srv_dir", "srv_meta", "srv_cfg", "srv_edb", "sent"]
 # Inv: the in-memory state is the recorded state (0 <=> no record); files exist for the states that need them
 INV = ["(self.sid in srv_meta) == (%s != 0)" % ST_, "implies(%s != 0, srv_meta[self.sid] == %s)" % (ST_, ST_),
        "implies(%s != 0, self.sid in srv_dir)" % ST_, "implies(%s != 0, self.sid in srv_cfg)" % ST_,
@@ -174,7 +175,7 @@ contract(SV_ + ".handle_upload_config", params=dict(self=SVT, config_bytes=TByte
          ensures=INV + ["%s == 1" % ST_, "srv_cfg == dput(old(srv_cfg), self.sid, unpickled_bytes(config_bytes))",
                         "srv_meta == dput(old(srv_meta), self.sid, 1)", "srv_edb == old(srv_edb)",
                         "len(sent) == len(old(sent)) + 1", "sent[len(sent) - 1][0] == 'config'", "reply_ok(sent[len(sent) - 1][1])"],
-         no_runtime=True, props=["C10", "C13", "C09"])
+         no_runtime=True, modifies_ghost=SRV_GHOSTS, props=["C10", "C13", "C09"])
 contract(SV_ + ".handle_upload_encrypted_database", params=dict(self=SVT, edb_bytes=TBytes, raw_msg_dict=TAny), modifies=["self"],
          requires=INV,
          raises={"ValueError": dict(when="old(%s) != 1" % ST_, iff=True)},
@@ -182,12 +183,12 @@ contract(SV_ + ".handle_upload_encrypted_database", params=dict(self=SVT, edb_by
          ensures=INV + ["%s == 2" % ST_, "srv_edb == dput(old(srv_edb), self.sid, edb_bytes)",
                         "srv_meta == dput(old(srv_meta), self.sid, 2)", "srv_cfg == old(srv_cfg)",
                         "len(sent) == len(old(sent)) + 1", "sent[len(sent) - 1][0] == 'upload_edb'", "reply_ok(sent[len(sent) - 1][1])"],
-         no_runtime=True, props=["C10", "C13", "C09"])
+         no_runtime=True, modifies_ghost=SRV_GHOSTS, props=["C10", "C13", "C09"])
 contract(SV_ + ".handle_search_token", params=dict(self=SVT, token_bytes=TBytes, raw_msg_dict=TPyDict(dict(token_digest=TBytes))),
          modifies=["self"], requires=INV,
          raises={"ValueError": dict(when="old(%s) != 2" % ST_, iff=True)},
          raise_ensures={"ValueError": REFUSED + ["sent[len(sent) - 1][0] == 'result'"]},
          ensures=INV + UNCHANGED + ["%s == 2" % ST_, "len(sent) == len(old(sent)) + 1", "sent[len(sent) - 1][0] == 'result'"],
-         no_runtime=True, props=["C10", "C09"])
+         no_runtime=True, modifies_ghost=SRV_GHOSTS, props=["C10", "C09"])
 contract(SV_ + ".close_service", params=dict(self=SVT), modifies=["self"], requires=INV,
-         ensures=INV + UNCHANGED + ["%s == old(%s)" % (ST_, ST_), "sent == old(sent)"], no_runtime=True, props=["C10", "C13"])
+         ensures=INV + UNCHANGED + ["%s == old(%s)" % (ST_, ST_), "sent == old(sent)"], no_runtime=True, modifies_ghost=SRV_GHOSTS, props=["C10", "C13"])
